@@ -1004,6 +1004,25 @@ def oracleC10 (p : Parsed) (ex : Expect) (fs : List (String × String)) : Option
       | _ => none
     if ex.sizesSafe && code == some 8 && ex.errCode != 8 then some "rejected for size although every representation of every message fits" else
     let L := o.conf.maxMsg
+    -- a Connect GET request carries its message in the URL; it is inflated in order to be decoded, under the limit
+    let getOver : Bool :=
+      if o.cform != .connectGet then false else
+      match o.cReqComp with
+      | none => false
+      | some z =>
+        let b64 := o.query.get (s "base64")
+        let msgStr := o.query.get (s "message")
+        let wire? : Option Bytes :=
+          if b64 == [0x31] && !msgStr.isEmpty then b64UrlDecodeEither msgStr
+          else if b64.isEmpty || b64 == [0x30] || b64 == [0x31] then some msgStr else none
+        match wire? with
+        | none => false
+        | some wire =>
+          if wire.isEmpty then false else
+          match fakeWorld.decompress z wire with
+          | some d => d.length > L
+          | none => false
+    if getOver && code != some 8 then some "a Connect GET message that inflates above the limit was not rejected with resource_exhausted" else
     -- response side: a response message with an oversized representation on a path that buffers it
     let writes := p.sc.script.foldl (fun acc op => match op with | .write b => acc ++ b | _ => acc) ([] : Bytes)
     let respComp : Option Bytes := p.sc.script.foldl (fun acc op => match op with
